@@ -3,7 +3,8 @@
 Workload : seeded namespaces generated from an abstract model whose flat result is known BY CONSTRUCTION
            (checks/_c06_gen.py: nesting <= 3, templates instantiated several times, parameters
            forwarded/defaulted/overridden/shadowed, references to siblings, into sibling workflows, passed
-           down as (partial) arguments, all documented spellings), their single-fault mutants, and
+           down as (partial) arguments, all documented spellings, SEVERAL references in one parameter value
+           written directly / forwarded / completed per reference), their single-fault mutants, and
            naming-hazard variants (step names the '<step>[-<roman>]' scheme cannot keep apart/express).
 Observed : namespace_to_flowir(Namespace(**doc)) -> components / references / arguments / variables,
            FlowIRConcrete.validate(); or the exception class and DSLInvalidError.underlying_errors.
@@ -196,6 +197,12 @@ def judge_positive(truth, out):
         hit("clause_edges_equal")
         if l["edges"]:
             hit("leaves_with_edges")
+        if l.get("max_refs_in_one_value", 0) >= 2:
+            # one parameter value of this leaf holds >= 2 output references: every one of them must have
+            # become a producer (references) and must still be in the command line (arguments), see above
+            hit("leaves_with_multi_ref_value")
+            if l["max_refs_in_one_value"] >= 3:
+                hit("leaves_with_3plus_refs_in_one_value")
         if c["executable"] != l["fields"]["command.executable"]:
             v.append("%s: executable %r, expected %r" % (where, c["executable"], l["fields"]["command.executable"]))
         if "resourceRequest.numberThreads" in l["fields"]:
@@ -324,7 +331,9 @@ def classify_hang(doc, mut, out):
 def profile_for(rnd, tier):
     return {"max_depth": rnd.choice([1, 2, 2, 3, 3]), "max_steps": rnd.choice([2, 3, 4]),
             "p_nest": rnd.choice([0.3, 0.5, 0.7]), "p_reuse": rnd.choice([0.0, 0.3, 0.6]),
-            "reuse_step_names": rnd.random() < 0.6, "max_leaves": 14}
+            "reuse_step_names": rnd.random() < 0.6, "max_leaves": 14,
+            # how often a complete / copy-link reference parameter receives SEVERAL references in one value
+            "p_multi": rnd.choice([0.0, 0.3, 0.5, 0.7])}
 
 
 def class_key(model, truth):
@@ -526,6 +535,9 @@ def main():
                        "sibling workflows, partial references completed with /path:method by a workflow argument or "
                        "with :method by the component command line; methods ref/output in command lines, copy/link "
                        "only through parameters that do not appear in the command line",
+                       "a parameter value may hold several COMPLETE references separated by text that contains "
+                       "white space (free text may precede, separate and follow them); a partial reference is "
+                       "always alone in its value",
                        "a component completing a partial reference with a path (%(p)s/file:ref) is not generated: "
                        "the compiler documents it as unsupported",
                        "no explicit null arguments, no 'replica', 'input.*' or 'data.*' parameters, no replication",
@@ -555,6 +567,7 @@ def main():
     c.floor("mutant_cases", 10000 if thorough else 400)
     c.floor("clause_edges_equal", 20000 if thorough else 800)
     c.floor("leaves_with_edges", 5000 if thorough else 200)
+    c.floor("leaves_with_multi_ref_value", 1000 if thorough else 40)
     c.floor("shape_depth3", 1000 if thorough else 40)
     c.floor("shape_template_reused", 1000 if thorough else 40)
     c.floor("hazard_cases", 400 if thorough else 20)
